@@ -48,6 +48,22 @@ def gen_schedule(rng, total_s, T0):
 
 
 def generate(rng, tier, index):
+    if index % 6 == 5:
+        from ksim import diffworld as DW
+        cfg = DW.gen_config(rng, real_ok=False)
+        T0 = cfg['T']['T'] if cfg['T']['kind'] == 'const' else cfg['T']['temps'][0]
+        kind = rng.choice(['array', 'func', 'array', 'const'])
+        if kind == 'const':
+            cfg['T'] = {'kind': 'const', 'T': T0}
+        else:
+            npts = rng.randint(2, 4)
+            times = [0.0] + sorted(round(rng.uniform(0.1, 1.2), 3) for _ in range(npts - 1))
+            temps = [T0] + [T0 + rng.choice([-60, -20, 15, 40, 90]) for _ in range(npts - 1)]
+            cfg['T'] = {'kind': kind, 'times': times, 'temps': temps, 'time_scale': True}
+            if kind == 'func':
+                cfg['T']['grad'] = rng.choice([0.0, 25.0, -40.0]) / cfg['L']
+        cfg['cache'] = False
+        return {'kind': 'diffusion', 'cfg': cfg, 'ops': DW.gen_ops(rng), 'cap': 300}
     real = rng.random() < 0.04
     if real:
         cfg = W.real_config('real_alzr', rng)
@@ -79,7 +95,7 @@ def generate(rng, tier, index):
 
 
 def prepare(tier, recs):
-    W.preload([r['cfg']['backend'] for r in recs])
+    W.preload([r['cfg']['backend'] for r in recs if r.get('kind') != 'diffusion'])
 
 
 class TempMonitor:
@@ -170,7 +186,32 @@ def pdata_digest(m):
     return D.hex()
 
 
+def execute_diffusion(rec):
+    """Diffusion part: the temperature field handed to every flux evaluation vs the schedule, and ctor vs setter pairs."""
+    from ksim.props import c04
+    F = core.Failures()
+    cnt = {k: 0 for k in ('steps', 'ledger_checks', 'clip_steps', 'temp_checks', 'provider_calls', 'sim_time', 'pairs')}
+    finals = []
+    for via in ('ctor', 'setter'):
+        r = copy.deepcopy(rec)
+        r['cfg']['T_via'] = via
+        c2 = {k: 0 for k in cnt}
+        m, info, sig, D, capped = c04.run_and_check(r, F, c2, prefix='C04', check_temp=(via == 'ctor'))
+        finals.append((np.array(m.x, copy=True), float(m.t)))
+        if via == 'ctor':
+            for k in c2:
+                cnt[k] = c2[k]
+    cnt['pairs'] = 1
+    if finals[0][1] != finals[1][1] or not np.array_equal(finals[0][0], finals[1][0]):
+        F.add('C13.equivalent_specs_differ', f'diffusion runs with the schedule supplied through the constructor object and through the setter differ (end times {finals[0][1]!r} / {finals[1][1]!r})', pair='ctor_setter_diffusion')
+    fl = [f for f in F.items if f['check'].startswith('C13.')]
+    kind = rec['cfg']['T']['kind']
+    return core.result(fl, sig=f"diffusion:{rec['cfg']['model']}:{kind}", nontrivial=cnt['temp_checks'] >= 10 and kind != 'const', counters=cnt, digest='')
+
+
 def execute(rec):
+    if rec.get('kind') == 'diffusion':
+        return execute_diffusion(rec)
     F = core.Failures()
     cnt = {k: 0 for k in ('steps', 'staleness_checks', 'pairs', 'table_rebuilds', 'runs_real', 'runs_stub', 'sim_time', 'capped')}
     cfg = rec['cfg']
@@ -202,6 +243,11 @@ def execute(rec):
 
 
 def shrink_candidates(rec):
+    if rec.get('kind') == 'diffusion':
+        from ksim.props import c04
+        for r in c04.shrink_candidates(rec):
+            yield r
+        return
     for r in W.shrink_run_record(rec):
         yield r
     T = rec['cfg']['T']
